@@ -234,11 +234,8 @@ impl encoding_rs::Encoding {
 }
 /// worst-case number of UTF-8 bytes produced for n input bytes (every ill-formed byte becomes a 3-byte U+FFFD)
 pub uninterp spec fn dec_need(n: int) -> int;
-/// capacity of a String's buffer
-pub uninterp spec fn str_cap(s: String) -> int;
 
-pub assume_specification[String::with_capacity](n: usize) -> (r: String)
-    ensures r@ == Seq::<char>::empty(), str_cap(r) >= n;
+// (String::with_capacity: see prelude_stdx.rs)
 
 impl encoding_rs::Decoder {
     /// ASSUMED (encoding_rs docs): a buffer of this many bytes always suffices for `byte_length` input bytes
@@ -261,7 +258,7 @@ impl encoding_rs::Decoder {
             !dec_finished(*old(self)),   // encoding_rs panics: "Must not use a decoder that has finished."
         ensures
             !last ==> !dec_finished(*final(self)),   // a call with last == true may finish the decoder
-            !last && str_cap(*old(dst)) - old(dst)@.len() >= dec_need(src@.len() as int) ==>
+            !last && string_capacity(*old(dst)) - old(dst)@.len() >= dec_need(src@.len() as int) ==>
                 final(dst)@ == old(dst)@ + dec_out(dec_of(*old(self)), src@) && dec_of(*final(self)) == dec_next(dec_of(*old(self)), src@),
     { unimplemented!() }
 }
